@@ -430,7 +430,7 @@ fn directed(w: &World, vd: &mut Verdicts) {
 /// The byte-exact tie at the two inputs where the variants `bitmapCeil` / `firstHole` of the model differ (the generator of
 /// fs.rs produces neither a volume of 4096 x k blocks nor a file image without chunk 0): format of a 4096-block volume,
 /// and put of the chunks {1} on a 280-block volume, each compared unit for unit with a private driver that was told
-/// the probed variant.  Exact before and after the repairs are applied.
+/// the probed variant; then a put with an empty `fs_type` and the put of a sparse tree file (chunks {0, 300}).  Exact before and after the repairs are applied.
 fn variant_tie(w: &World, vd: &mut Verdicts) {
     use a2kit::fs::{prodos, DiskFS};
     use a2kit::img;
@@ -482,6 +482,23 @@ fn variant_tie(w: &World, vd: &mut Verdicts) {
         mirror(&mut drv, &d.get_img().to_bytes(), false)?;
         let a = ask(&mut drv, &format!("put {} {} {} {} {} {} {} 0:-", hxs("S"), hx(&f.fs_type), hx(&f.aux), hx(&f.access), 16, hx(&time), res_tok(&res)));
         if a != "ok" { return Ok(Some(format!("put S with an empty fs_type (variant {:?}, real {}): model answered [{}]", v, res_tok(&res), a))); }
+        // 4: put of a sparse tree file (chunks 0 and 300: master index block, two index blocks, two data blocks)
+        let d0 = vec![0x42u8; 512];
+        let d300 = vec![0x43u8; 100];
+        let mut f = d.new_fimg(None, true, "T").map_err(|e| e.to_string())?;
+        f.chunks.insert(0, d0.clone());
+        f.chunks.insert(300, d300.clone());
+        f.set_eof(300 * 512 + 100); f.access = vec![0xC3]; f.fs_type = vec![6];
+        let time = pd_time();
+        let res = d.put(&f).map(|_| ()).map_err(|e| e.to_string());
+        mirror(&mut drv, &d.get_img().to_bytes(), false)?;
+        let a = ask(&mut drv, &format!("put {} {} {} {} {} {} {} 0:{},300:{}", hxs("T"), hx(&f.fs_type), hx(&f.aux), hx(&f.access), 300 * 512 + 100, hx(&time), res_tok(&res), hx(&d0), hx(&d300)));
+        if a != "ok" { return Ok(Some(format!("put T chunks={{0,300}} (a tree file; variant {:?}, real {}): model answered [{}]", v, res_tok(&res), a))); }
+        // 5: delete of the tree file
+        let res = d.delete("T").map_err(|e| e.to_string());
+        mirror(&mut drv, &d.get_img().to_bytes(), false)?;
+        let a = ask(&mut drv, &format!("delete {} {}", hxs("T"), res_tok(&res)));
+        if a != "ok" { return Ok(Some(format!("delete T (a tree file; real {}): model answered [{}]", res_tok(&res), a))); }
         Ok(None)
     });
     match r {
